@@ -422,6 +422,16 @@ typedef struct { long from, to; const long *idx; int sample; } batch_t;
 static void run_batch(void *arg) { batch_t *b = arg; for (long i = b->from; i < b->to; i++) { g_sample = b->sample && (i - b->from) % 13 == 5; run_case(&CASES[b->idx[i]]); } }
 static void run_one(void *arg) { run_case((const ccase *) arg); }
 
+/* --case: vf_fork_case leaves the child's stderr alone in replay mode, so a sanitizer report would not reach the crash record and the key would degrade to
+ * crash:<cls>:exit-N.  Run the case once with stderr captured (records, correct keys), then - with -v - once more uncaptured and unrecorded for the human reader. */
+static void replay_one(void *c, const char *cls)
+{
+    const char *spec = vf_case; vf_case = NULL;
+    vf_fork_case(run_one, c, cls, spec, 120);
+    vf_case = spec;
+    if (vf_flag("-v")) { int out = vf_outfd; vf_outfd = open("/dev/null", O_WRONLY); vf_fork_case(run_one, c, cls, spec, 120); close(vf_outfd); vf_outfd = out; }
+}
+
 int main(int argc, char **argv)
 {
     vf_init(argc, argv);
@@ -433,7 +443,7 @@ int main(int argc, char **argv)
     { char *pem = cg_pem("CERTIFICATE", RC.der, RC.len); if (psX509ParseCertData(NULL, (unsigned char *) pem, strlen(pem), &ROOT, CERT_STORE_DN_BUFFER | CERT_ALLOW_BUNDLE_PARTIAL_PARSE) <= 0 || !ROOT) { fprintf(stderr, "root does not load\n"); return 2; } free(pem); }
     if (vf_case) {
         ccase c; if (spec_parse(vf_case, &c) < 0) { vf_incon("unparsable case spec: %s", vf_case); vf_flush(); return 2; }
-        vf_fork_case(run_one, &c, "c05", vf_case, 120);
+        replay_one(&c, "c05");
     } else {
         build_workload();
         long *mine = malloc((ncases + 1) * sizeof *mine), nm = 0;
